@@ -195,6 +195,58 @@ class Loop:
             return PolyCtx.div(init - guard.bound + Poly.const(-s), -s)
         return None
 
+    def runs(self):
+        """(N, rotated): the number of iterations of the loop body as a polynomial, for a loop with one exit.  A loop tested
+        in its header runs N = trip(guard) times (0 when that is not positive, rotated = False); a loop tested at its latch
+        (do/while) runs N = 1 + the number of times the latch test passes, which is only right when N >= 1 - rotated = True
+        tells the caller to establish N >= 1 from the guard in front of the loop (`entry_lower_bound`)"""
+        if len(self.exits) != 1:
+            return None, None
+        eb = self.exits[0][0]
+        gs = [g for g in self.guards() if g.block is eb]
+        if len(gs) != 1:
+            return None, None
+        return self.count_for(gs[0])
+
+    def count_for(self, guard):
+        """like runs(), for the iterations allowed by one guard of a loop that may have other (error) exits; with rotated = True
+        the count is established only once `entry_positive(N)` holds"""
+        eb = guard.block
+        T_ = self.trip(guard)
+        if T_ is None:
+            return None, None
+        if eb in self.latches and len(self.latches) == 1:       # includes the one-block loop (header == latch)
+            return T_ + Poly.const(1), True
+        if eb is self.header:
+            return T_, False
+        return None, None
+
+    def entry_lower_bound(self, p):
+        """a constant c with p >= c on every entry into the loop, from the comparisons that dominate the pre-header (p = one
+        canonical atom plus a constant); None if unknown"""
+        from .guards import Facts
+        c0 = p.get((), 0)
+        rest = Poly({k_: v for k_, v in p.items() if k_ != ()})
+        if len(rest) != 1 or list(rest.values()) != [1] or len(list(rest)[0]) != 1:
+            return p.const_value()
+        atom = list(rest)[0][0]
+        los = []
+        for e in self.entries:
+            F = Facts(self.pc.P, self.fn, e, extra_edge=(e, self.header))
+            lo = F.lower_bound(atom)
+            if lo is None:
+                return None
+            los.append(lo + c0)
+        return min(los) if los else None
+
+    def entry_positive(self, p):
+        """p >= 1 on every entry into the loop (from the comparisons that hold on the entering edges)"""
+        from .guards import PolyFacts
+        if self.entries and all(PolyFacts(self.pc.P, self.fn, e, pc=self.pc, extra_edge=(e, self.header)).implies(p - Poly.const(1)) for e in self.entries):
+            return True
+        lo = self.entry_lower_bound(p)
+        return lo is not None and lo >= 1
+
     def at_iteration(self, p):
         """rewrite polynomial p (over header phis of this loop) as a function of the iteration number t; None if a phi of
         this loop without a known invariant step occurs"""
@@ -246,6 +298,27 @@ def innermost(loops, block):
         if block in L.body and (best is None or len(L.body) < len(best.body)):
             best = L
     return best
+
+def in_iteration_space(LS, block, p):
+    """polynomial p with the induction variables of every loop around `block` replaced by init + step * t<n> (t0 = innermost):
+    a running offset (`diag += n + 1`, `row_off = diag - i`) and the product it replaces (`n*i + i`, `n*i`) get the same form"""
+    around = sorted([L for L in LS if block in L.body], key=lambda L: len(L.body))
+    for n, L in enumerate(around):
+        q = L.at_iteration(p)
+        if q is None:
+            continue
+        p = q.rename(lambda a: f't{n}' if a == T else a)
+    return p
+
+def same_at_every_iteration(L, p, q):
+    """p == q as functions of the iteration number of loop L: two induction variables that advance together (`i` and a
+    running `slot = k + i`, an index and a walking pointer) describe the same position"""
+    if p == q:
+        return True
+    if L is None:
+        return False
+    a, b = L.at_iteration(p), L.at_iteration(q)
+    return a is not None and b is not None and a == b
 
 def affine_in_t(p):
     """p = a + b*t  ->  (a, b) with a, b free of t; None otherwise"""
